@@ -21,6 +21,8 @@
    member <npins> p.. <haswire 0/1 per pin> <p>    -> outer <k> i.. inner (none|i)
    emit   <ident> <name> <lower> <array> <nw> (npins p..)*nw -> <k> (ident name npins p..)*k
    readc  <k> (ident name npins p..)*k             -> none | <nshort> <eshort> cable
+   readnets <k> (ident name npins p..)*k            -> none | <m> (name ident cable)*m      whole cell
+   emitnets <m> (name ident lower array nw (npins p..)*nw)*m -> <k> (ident name npins p..)*k
    cable printed as: <lower> <array 0/1> <nw> (npins p..)*nw *)
 open Edif_model
 
@@ -171,6 +173,20 @@ let handle line =
     (match read_cable nets with
      | None -> "none"
      | Some ((ns, es), c) -> tok_of_str ns ^ " " ^ tok_of_str es ^ " " ^ show_cab c)
+  | "readnets" :: rest ->
+    let (nets, _) = take_list parse_net rest in
+    (match read_nets [] nets with
+     | None -> "none"
+     | Some st -> String.concat " " (string_of_int (List.length st) ::
+         List.map (fun ((nm, idt), c) -> tok_of_str nm ^ " " ^ tok_of_str idt ^ " " ^ show_cab c) st))
+  | "emitnets" :: rest ->
+    let (cabs, _) = take_list (fun l -> match l with
+        | nm :: idt :: lower :: arr :: l' ->
+          let (wires, l'') = take_list (fun l -> take_list one_int l) l' in
+          (((str_of_tok nm, str_of_tok idt), { c_lower = n_of_int (int_of_string lower); c_array = (arr = "1"); c_wires = wires }), l'')
+        | _ -> failwith "short cable") rest in
+    let nets = emit_nets cabs in
+    String.concat " " (string_of_int (List.length nets) :: List.map show_net nets)
   | _ -> "error unknown command"
 
 let () =
